@@ -15,6 +15,7 @@ body commands: set.b.k.v.ttl  incr.b.k  incr.b.k.ttl  get.b.k  del.b.k  adv.dt  
                expire.b.k.ttl  setx.b.k.v.ttl (set(..., exist=True))  setnx.b.k.v.ttl (set(..., exist=False))
                with.<i|-> … end   a nested `async with` on shared context object i (`-`: an object of its own: an inline
                cache.transaction(…) block or a call of a decorated function); the tokens between `with` and its `end` are its body
+               commit / rollback   `await tx.commit()` / `await tx.rollback()` on the running Transaction, in the middle of the body
 (`-` = no ttl / no deadline).  obj: the context object of the OUTERMOST block (`-`: one of its own); `with.i` inside the
 body with the same i re-enters that very object.  `flocks`: lock keys held by a foreign owner for ever.  `hlocks`: lock keys held by
 contending holders (other open transactions) when the block starts; `rel=i.b.lk`: the holder of (b, lk) releases it
@@ -52,6 +53,8 @@ def parseBody? (s : String) : Option BodyCmd :=
   | ["del", b, k] => do pure (.delete (← b.toNat?) (← k.toNat?))
   | ["adv", dt] => do pure (.adv (← dt.toNat?))
   | ["raise"] => some .raise
+  | ["commit"] => some .commit
+  | ["rollback"] => some .rollback
   | ["setmany", b, ttl, kvs] => do
     let kvs ← allSome ((kvs.splitOn "+").map fun kv =>
       match kv.splitOn ":" with
